@@ -4,6 +4,7 @@
 package hist
 
 import (
+	"math/big"
 	"unsafe"
 
 	"filippo.io/edwards25519"
@@ -139,4 +140,17 @@ func (w *World) slotRanges() [][2]uintptr {
 		out = append(out, [2]uintptr{lo, lo + uintptr(len(w.eArr))*alpha.ElemSize})
 	}
 	return out
+}
+
+// PointFromAffine builds a Point (X:Y:1:XY) directly in memory, without calling
+// the library.
+func PointFromAffine(x, y *big.Int) *edwards25519.Point {
+	t := new(big.Int).Mul(x, y)
+	t.Mod(t, alpha.P)
+	return newPointRaw(alpha.PointRaw{X: alpha.LimbsOf(x), Y: alpha.LimbsOf(y), Z: alpha.Limbs{1}, T: alpha.LimbsOf(t)})
+}
+
+// ScalarFromInt builds a Scalar directly in memory, without calling the library.
+func ScalarFromInt(k *big.Int) *edwards25519.Scalar {
+	return newScalarRaw(alpha.MontgomeryOf(new(big.Int).Mod(k, alpha.L)))
 }
